@@ -535,11 +535,12 @@ def exec (s : St) (w : List String) : St × J :=
       | .ok r => confJ r
       | .error e => jerr e)
   | "confw" :: k :: start :: delta :: pt :: na :: rest =>
-    -- confw slot start delta ptype na (key100 nd (num den)*nd)*na : the powers d ** alpha (d = 1..nd) as exact rationals
+    -- confw slot start delta ptype na (alpha*1000 key100 nd (num den)*nd)*na : the powers d ** alpha (d = 1..nd) as exact rationals;
+    -- key100 is the result key '%.2f' % alpha as Python prints it, times 100
     withG s k (fun g =>
       let rec blocks : Nat → List String → List (Nat × List Rat)
         | 0, _ => []
-        | m + 1, key :: nd :: r =>
+        | m + 1, _k1000 :: key :: nd :: r =>
           let n := tokN nd
           let body := r.take (2 * n)
           let ws := (List.range n).map (fun i =>
